@@ -397,7 +397,20 @@ pub fn parts_of(e: &dyn Eng, texts: &[String], parts: &str, bl: i64, pre: &str, 
 pub fn iter_record(a: &Value, texts: &[String], parts: &str, bl: i64, with_regex: bool) -> Value {
     let ast = &a["ast"];
     let variant = a.get("variant").and_then(|v| v.as_str()).unwrap_or("");
-    let pat = if variant.is_empty() { to_pattern(ast) } else { to_pattern_variant(ast, variant) };
+    let pat = match a.get("toks").and_then(|t| t.as_array()) {
+        Some(toks) => toks
+            .iter()
+            .map(|t| {
+                let t = t.as_str().expect("fragment");
+                match t.strip_prefix('@') {
+                    Some(tok) if !tok.is_empty() => crate::tok::tok2char(tok).to_string(),
+                    _ => t.to_string(),
+                }
+            })
+            .collect::<String>(),
+        None if variant.is_empty() => to_pattern(ast),
+        None => to_pattern_variant(ast, variant),
+    };
     let mut rec = a.clone();
     let m = rec.as_object_mut().unwrap();
     m.insert("pat".into(), json!(ascii(&pat)));
